@@ -85,6 +85,21 @@ def gen_cases(tier, seed):
             cen = [cg.dyadic(line[k] * x / nrm, 16) for x in dirn]
             basis.append(cg.shell(rng, rng.choice([0, 0, 1, 2, 3]), K=rng.randint(1, 4), M=rng.randint(1, 2), lo=0.05, hi=500.0,
                                   bits=24, cen=cen))
+        if d % 4 == 2:
+            # general-contraction layout: the most diffuse primitive has a structural zero in the FIRST segment and is carried by
+            # a later one -- the cut-off is set by the smallest exponent of the shell, whichever segment uses it
+            for s_ in basis[:2]:
+                if len(s_["exps"]) < 2:
+                    s_["exps"] = s_["exps"] + [cg.exponent(rng, 0.05, 0.3, 24)]
+                    s_["coeffs"] = s_["coeffs"] + [[cg.coeff(rng) for _ in s_["coeffs"][0]]]
+                if len(s_["coeffs"][0]) < 2:
+                    s_["coeffs"] = [row + [cg.coeff(rng)] for row in s_["coeffs"]]
+                kmin = min(range(len(s_["exps"])), key=lambda k_: cg.val(s_["exps"][k_]))
+                s_["coeffs"][kmin][0] = [0, 0]
+                if s_["coeffs"][kmin][1][0] == 0:
+                    s_["coeffs"][kmin][1] = cg.coeff(rng)
+                if all(row[0][0] == 0 for row in s_["coeffs"]):
+                    s_["coeffs"][(kmin + 1) % len(s_["exps"])][0] = cg.coeff(rng)
         c = {"id": d + 1, "basis": basis}
         if d % 2 == 1:
             # the tolerance has to reach the kernel through every dispatch path: all-Cartesian, all-spherical and mixed
@@ -173,6 +188,21 @@ def replay_case(case):
             if gt.shape != wt.shape or not np.abs(gt - wt).max() <= 1e-10 * (np.abs(wt).max() + 1):
                 res["violations"].append("overlap_integral(transform, tol_screen=%r) is not the transformed screened matrix (the tolerance is "
                                          "not forwarded through the transformed path?)" % tol)
+    # the cut-off follows the CURRENT exponents of a shell object: after a screened call, the exponents are replaced through
+    # the setter (more diffuse, then tighter) and the screened matrix must be the one of freshly built shells
+    cls = gb.Shell()
+    for factor in (0.25, 8.0):
+        for s_ in shells:
+            s_.exps = np.array(s_.exps, dtype=float) * factor
+            s_.assign_norm_cont()
+        fresh = [cls(int(s_.angmom), np.array(s_.coord), np.array(s_.coeffs), np.array(s_.exps), s_.coord_type) for s_ in shells]
+        for tol in (1e-8, 1e-2):
+            a_, b_ = ov.overlap_integral(shells, tol_screen=tol), ov.overlap_integral(fresh, tol_screen=tol)
+            res["n"] += 1
+            if a_.shape != b_.shape or not np.array_equal(a_ == 0, b_ == 0) or not np.abs(a_ - b_).max() <= 1e-12:
+                res["violations"].append("tol_screen=%r after the exponents of the shell objects were replaced (x %g) through the setter: the screened "
+                                         "matrix differs from that of freshly built shells with the same values (zero pattern equal: %s)"
+                                         % (tol, factor, a_.shape == b_.shape and bool(np.array_equal(a_ == 0, b_ == 0))))
     for bad in (True, False):
         try:
             ov.overlap_integral(shells, tol_screen=bad)
